@@ -149,6 +149,8 @@ type Reader struct {
 	err          error
 	lastByte     int // last byte read for UnreadByte; -1 means invalid
 	lastRuneSize int // size of last rune read for UnreadRune; -1 means invalid
+	// aligned readers only ever hand their own (block aligned) buffer to the underlying reader
+	aligned bool
 }
 
 const minReadBufferSize = 16
@@ -182,7 +184,16 @@ func (b *Reader) reset(buf []byte, r io.Reader) {
 		rd:           r,
 		lastByte:     -1,
 		lastRuneSize: -1,
+		aligned:      b.aligned,
 	}
+}
+
+// NewAlignedReaderBuf is NewReaderBuf for files opened with O_DIRECT: every read of the underlying file goes into the
+// supplied (block aligned) buffer, never directly into the caller's slice.
+func NewAlignedReaderBuf(rd io.Reader, buf []byte) *Reader {
+	r := NewReaderBuf(rd, buf)
+	r.aligned = true
+	return r
 }
 
 var errNegativeRead = errors.New("bufio: reader returned negative count from Read")
@@ -242,7 +253,7 @@ func (b *Reader) Read(p []byte) (n int, err error) {
 		if b.err != nil {
 			return 0, b.readErr()
 		}
-		if len(p) >= len(b.buf) {
+		if len(p) >= len(b.buf) && !b.aligned {
 			// Large read, empty buffer.
 			// Read directly into p to avoid copy.
 			n, b.err = b.rd.Read(p)
